@@ -36,6 +36,9 @@ type Scenario struct {
 	EarlyAfter []int    // per session: messages after which an "early" claim returns / a "prefix" claim stops marking
 	CancelAfterMs []int // per session: cancel the context after this many ms (0 = when all claims are idle)
 	CloseInSession int  // call group.Close() during this session instead of cancelling (-1 never)
+	Retention  int      // Consumer.Offsets.Retention in hours (0 = unset)
+	Follower   bool     // another member leads the group; this member gets FollowerParts
+	FollowerParts []int32
 }
 
 type HEvent struct {
@@ -114,6 +117,17 @@ func Gen(seed uint64, focus string) *Scenario {
 	if r.Chance(1, 4) {
 		sc.CloseInSession = r.Intn(sc.Sessions)
 	}
+	if r.Chance(1, 4) {
+		sc.Retention = r.Pick(1, 24)
+	}
+	if r.Chance(1, 4) {
+		sc.Follower = true
+		for p := int32(0); p < sc.Partitions; p++ {
+			if r.Chance(1, 3) {
+				sc.FollowerParts = append(sc.FollowerParts, p)
+			}
+		}
+	}
 	return sc
 }
 
@@ -136,7 +150,7 @@ func (sc *Scenario) String() string {
 	}
 	return fmt.Sprintf("seed=%d brokers=%d parts=%d log=%v stored=%v ghosts=%d strat=%s oldest=%v auto=%v retry=%d ver=%s script=[%s] sessions=%d beh=%v early=%v cancel=%v closeIn=%d",
 		sc.Seed, sc.Brokers, sc.Partitions, sc.LogLen, sc.Stored, sc.Ghosts, sc.Strategy, sc.InitialOldest, sc.AutoCommit, sc.RetryMax, sc.Version,
-		strings.Join(fs, ","), sc.Sessions, sc.Behaviour, sc.EarlyAfter, sc.CancelAfterMs, sc.CloseInSession)
+		strings.Join(fs, ","), sc.Sessions, sc.Behaviour, sc.EarlyAfter, sc.CancelAfterMs, sc.CloseInSession) + fmt.Sprintf(" retention=%dh follower=%v/%v", sc.Retention, sc.Follower, sc.FollowerParts)
 }
 
 type handler struct {
@@ -222,6 +236,7 @@ func Run(sc *Scenario) *Result {
 		}
 	}
 	sim.GroupGhosts = sc.Ghosts
+	sim.GroupFollower, sim.GroupFollowerTopic, sim.GroupFollowerParts = sc.Follower, "t", sc.FollowerParts
 	sim.GroupScript = func(kind string, n int) sarama.KError {
 		if m, ok := sc.Script[kind]; ok {
 			if v, ok := m[n]; ok {
@@ -240,6 +255,7 @@ func Run(sc *Scenario) *Result {
 	cfg.Consumer.Offsets.AutoCommit.Enable = sc.AutoCommit
 	cfg.Consumer.Offsets.AutoCommit.Interval = 4 * time.Millisecond
 	cfg.Consumer.Offsets.Retry.Max = 2
+	cfg.Consumer.Offsets.Retention = time.Duration(sc.Retention) * time.Hour
 	cfg.Consumer.Group.Heartbeat.Interval = 3 * time.Millisecond
 	cfg.Consumer.Group.Session.Timeout = 100 * time.Millisecond
 	cfg.Consumer.Group.Rebalance.Timeout = 200 * time.Millisecond
